@@ -313,11 +313,11 @@ def run(ctx):
     if ctx.replay is not None:
         histories = [(ctx.replay['replay']['init'], [tuple(o) for o in ctx.replay['replay']['ops']], None)]
     else:
-        simc = dict(L=3, OIDS=ctx.pick('{0,1}', '{0,1,2}'), QS='{0,1}', MaxTerms=ctx.pick(3, 4), MaxTerms2=1, MaxOps=3,
+        simc = dict(L=3, OIDS='{0,1}', QS='{0,1}', MaxTerms=3, MaxTerms2=1, MaxOps=3,       # larger alphabets make every simulation step enumerate > 10^4 successors
                     RELABELS='{"same","shift","swap","far"}')
         prefix = ctx.work + '/sim'
         r = tlc.run('OpGraph', ctx.work, 'sim', workers=1, constants=simc, defs=dict(COEFS='{-1,1,2}', COEFS2='{1,-1,2}'),
-                    invariants=['DenOK', 'ConsistentOK'], simulate=dict(num=ctx.pick(100, 800), file=prefix),
+                    invariants=['DenOK', 'ConsistentOK'], simulate=dict(num=ctx.pick(100, 1500), file=prefix),
                     depth=16, seed=ctx.seed + 1, timeout=3000)
         ctx._account('sim', 'OpGraph', r, 'simulate')
         if not r.ok:
